@@ -1434,14 +1434,26 @@ impl Relation {
     pub fn architectures(&self) -> Option<impl Iterator<Item = String> + '_> {
         let architectures = self.0.children().find(|n| n.kind() == ARCHITECTURES)?;
 
-        Some(architectures.children_with_tokens().filter_map(|node| {
-            let token = node.as_token()?;
-            if token.kind() == IDENT {
-                Some(token.text().to_string())
-            } else {
-                None
-            }
-        }))
+        // a negated architecture ("!amd64") is NOT followed by IDENT; keep the '!'
+        let mut negated = false;
+        Some(
+            architectures
+                .children_with_tokens()
+                .filter_map(move |node| {
+                    let token = node.as_token()?;
+                    if token.kind() == NOT {
+                        negated = true;
+                        None
+                    } else if token.kind() == IDENT {
+                        let prefix = if std::mem::take(&mut negated) { "!" } else { "" };
+                        Some(format!("{}{}", prefix, token.text()))
+                    } else {
+                        None
+                    }
+                })
+                .collect::<Vec<_>>()
+                .into_iter(),
+        )
     }
 
     /// Returns an iterator over the build profiles for this relation
